@@ -839,9 +839,11 @@ class UniformTime(np.ndarray, TimeInterface):
         return self
 
     def __imul__(self, val):
+        if val == 0:
+            raise ValueError('Scaling by 0 would collapse the time axis')
         np.ndarray.__imul__(self, val)
-        self.sampling_interval *= val
-        self.sampling_rate = Frequency(self.sampling_rate / val)
+        self._set_sampling(int(self.t0) * val,
+                           int(self.sampling_interval) * val)
         return self
 
     def __idiv__(self, val):
